@@ -83,7 +83,10 @@ def rules(model: Model, tier: str) -> List[RuleResult]:
     Ua = RuleResult(PROP, "C18-U", "built-in implementations of the functionals whose backward inherits the forward options (quad, solve_ivp, mcquad) tolerate options "
                     "they do not know (`**` catch-all): a custom forward method's private options reach them in the backward pass", min_instances=9)
     _catch_all(model, Ua)
-    return [G, L, C, Mx, Rr, A, N, O, K, Dm, Ua]
+    from .c01 import _zero_rhs_shortcut as _zrs
+    ZS = RuleResult(PROP, "C18-Z", "the zero right-hand-side shortcut (which bypasses the selected method, also a callable) is taken only for an exactly zero right-hand side and has the shape of every other result", min_instances=1)
+    _zrs(model, ZS)
+    return [G, L, C, Mx, Rr, A, N, O, K, Dm, Ua, ZS]
 
 
 def _catch_all(model: Model, U: RuleResult):
